@@ -75,6 +75,7 @@ def gen_config(rng, d, N, K=1, T=1, cell="orth", ppp=None, Lrange=(3.0, 5.0), sp
         for i in range(d):
             for j in range(i):
                 H[i][j] = common.dec(rng, -0.8, 0.8, nd=2)
+        common.sparse_tilt(rng, H)
     types = [1 + (i % K) for i in range(N)]
     rng.shuffle(types)
     Hf = np.array([[float(x) for x in row] for row in H])
